@@ -257,10 +257,37 @@ pub async fn run_net(tok: &[&str]) -> String {
             DecodeLevel::nothing(),
         ),
     };
-    let join = tokio::spawn(task.run());
     let mut handle = Some(handle);
-    let mut conns: HashMap<String, TcpStream> = HashMap::new();
     let mut out: Vec<String> = Vec::new();
+    // `J<n>` (first step only): n decode-level commands are queued BEFORE the server task is first
+    // polled (the command queue holds 8), then shutdown is requested with the handle kept alive:
+    // a shutdown request must never be lost, however full the queue is
+    let mut pre_shutdown = None;
+    if let Some(n) = tok[4].split(',').next().and_then(|s| s.strip_prefix('J')) {
+        let n: usize = n.parse().unwrap();
+        let h = handle.as_mut().unwrap();
+        for _ in 0..n.min(8) {
+            let _ = tokio::time::timeout(Duration::from_millis(100), h.set_decode_level(decode_level("d322"))).await;
+        }
+        let h2 = handle.take().unwrap();
+        pre_shutdown = Some(tokio::spawn(async move {
+            let r = h2.shutdown().await;
+            (h2, r)
+        }));
+    }
+    let join = tokio::spawn(task.run());
+    if let Some(p) = pre_shutdown {
+        let r = tokio::time::timeout(Duration::from_millis(1000), p).await;
+        tokio::time::sleep(Duration::from_millis(SETTLE_MS)).await;
+        match r {
+            Ok(Ok((h2, res))) => {
+                out.push(format!("S:{}", if res.is_ok() { "ok" } else { "shutdown" }));
+                handle = Some(h2);
+            }
+            _ => out.push("S:blocked".to_string()),
+        }
+    }
+    let mut conns: HashMap<String, TcpStream> = HashMap::new();
     let mut tx: u16 = 0;
     let mut half: HashMap<String, u16> = HashMap::new();
     if tok[4] != "-" {
